@@ -790,6 +790,14 @@ func SetName(n string) {
 	}
 }
 
+// Self returns the index of the running goroutine (harness-side bookkeeping per goroutine).
+func Self() int {
+	if W == nil {
+		return -1
+	}
+	return W.running.Index
+}
+
 // Alive lists the goroutines that have not finished, with spawn sites and pending operations.
 func Alive() []AliveG {
 	w := W
